@@ -18,3 +18,65 @@
 (define-fun adjBaseRel20 ((c CVSS20) (k Int)) Bool (rnd1 (baseEq20 (adjImpact20 c) (expl20 c)) k))
 (define-fun envRel20 ((kt Int) (c CVSS20) (k Int)) Bool
   (rnd1 (* (+ (/ (to_real kt) 10.0) (* (- 10.0 (/ (to_real kt) 10.0)) (w20_CDP (f20_CDP c)))) (w20_TD (f20_TD c))) k))
+
+; ---- ParseVector (C01, C06, C13, C14, C18): reference fold over at most 14 '/'-separated segments ----
+; Segment k (k < 13) is the k-th maximal '/'-free piece; segment 13, if reached, is the whole remainder
+; (the implementation splits into at most 14 parts).  segstart/segend give their positions.
+(define-fun seg20_0 ((v Str)) Int 0)
+(define-fun segend20_0 ((v Str)) Int (nextsep v (seg20_0 v)))
+(define-fun seg20_1 ((v Str)) Int (+ (segend20_0 v) 1))
+(define-fun segend20_1 ((v Str)) Int (nextsep v (seg20_1 v)))
+(define-fun seg20_2 ((v Str)) Int (+ (segend20_1 v) 1))
+(define-fun segend20_2 ((v Str)) Int (nextsep v (seg20_2 v)))
+(define-fun seg20_3 ((v Str)) Int (+ (segend20_2 v) 1))
+(define-fun segend20_3 ((v Str)) Int (nextsep v (seg20_3 v)))
+(define-fun seg20_4 ((v Str)) Int (+ (segend20_3 v) 1))
+(define-fun segend20_4 ((v Str)) Int (nextsep v (seg20_4 v)))
+(define-fun seg20_5 ((v Str)) Int (+ (segend20_4 v) 1))
+(define-fun segend20_5 ((v Str)) Int (nextsep v (seg20_5 v)))
+(define-fun seg20_6 ((v Str)) Int (+ (segend20_5 v) 1))
+(define-fun segend20_6 ((v Str)) Int (nextsep v (seg20_6 v)))
+(define-fun seg20_7 ((v Str)) Int (+ (segend20_6 v) 1))
+(define-fun segend20_7 ((v Str)) Int (nextsep v (seg20_7 v)))
+(define-fun seg20_8 ((v Str)) Int (+ (segend20_7 v) 1))
+(define-fun segend20_8 ((v Str)) Int (nextsep v (seg20_8 v)))
+(define-fun seg20_9 ((v Str)) Int (+ (segend20_8 v) 1))
+(define-fun segend20_9 ((v Str)) Int (nextsep v (seg20_9 v)))
+(define-fun seg20_10 ((v Str)) Int (+ (segend20_9 v) 1))
+(define-fun segend20_10 ((v Str)) Int (nextsep v (seg20_10 v)))
+(define-fun seg20_11 ((v Str)) Int (+ (segend20_10 v) 1))
+(define-fun segend20_11 ((v Str)) Int (nextsep v (seg20_11 v)))
+(define-fun seg20_12 ((v Str)) Int (+ (segend20_11 v) 1))
+(define-fun segend20_12 ((v Str)) Int (nextsep v (seg20_12 v)))
+(define-fun seg20_13 ((v Str)) Int (+ (segend20_12 v) 1))
+(define-fun segend20_13 ((v Str)) Int (s.len v))
+(define-fun seg20_14 ((v Str)) Int (+ (segend20_13 v) 1))
+(define-fun segstart20 ((v Str) (k Int)) Int (ite (= k 0) (seg20_0 v) (ite (= k 1) (seg20_1 v) (ite (= k 2) (seg20_2 v) (ite (= k 3) (seg20_3 v) (ite (= k 4) (seg20_4 v) (ite (= k 5) (seg20_5 v) (ite (= k 6) (seg20_6 v) (ite (= k 7) (seg20_7 v) (ite (= k 8) (seg20_8 v) (ite (= k 9) (seg20_9 v) (ite (= k 10) (seg20_10 v) (ite (= k 11) (seg20_11 v) (ite (= k 12) (seg20_12 v) (ite (= k 13) (seg20_13 v) (seg20_14 v))))))))))))))))
+(define-fun segend20 ((v Str) (k Int)) Int (ite (= k 0) (segend20_0 v) (ite (= k 1) (segend20_1 v) (ite (= k 2) (segend20_2 v) (ite (= k 3) (segend20_3 v) (ite (= k 4) (segend20_4 v) (ite (= k 5) (segend20_5 v) (ite (= k 6) (segend20_6 v) (ite (= k 7) (segend20_7 v) (ite (= k 8) (segend20_8 v) (ite (= k 9) (segend20_9 v) (ite (= k 10) (segend20_10 v) (ite (= k 11) (segend20_11 v) (ite (= k 12) (segend20_12 v) (s.len v)))))))))))))))
+(declare-datatypes ((PRes20 0)) (((mk-pres20 (p.err Err) (p.pos Int) (p.vals (Array Int (_ BitVec 8))) (p.rule Int)))))
+(define-fun noVals () (Array Int (_ BitVec 8)) ((as const (Array Int (_ BitVec 8))) #x00))
+; pos = index (in vector order) of the next expected metric.  Base metrics (0..5) are mandatory; at the
+; start of the temporal group (6) an element that is not E starts the environmental group (9) instead.
+; The first defect decides the error.  p.rule records two special situations in which the property
+; (C18: "a misplaced, repeated or unknown metric yields ErrInvalidMetricOrder") is what the spec
+; demands: rule 4 = an element follows the complete environmental group; rule 5 = the 14th segment is
+; itself the expected AR metric with a legal value but is followed by further elements.
+; fold20 is a recursive definition with measure (s.len v) + 1 - s; see fold20_def.
+(declare-fun fold20 (Str Int Int Int (Array Int (_ BitVec 8))) PRes20)
+(define-fun fold20_def ((v Str) (s Int) (k Int) (pos Int) (vals (Array Int (_ BitVec 8)))) Bool
+  (= (fold20 v s k pos vals)
+  (ite (or (< s 0) (> s (s.len v))) (mk-pres20 Nil pos vals 0)
+  (let ((e (ite (>= k 13) (s.len v) (nextsep v s))))
+  (let ((el (substr v s e)) (el13 (substr v s (nextsep v s))))
+  (ite (>= pos NM20) (mk-pres20 ErrInvalidMetricOrder pos vals 4)
+  (let ((p (ite (and (= pos (goff20 1)) (not (= (midx20 (elemkey el)) pos))) (goff20 2) pos)))
+  (ite (and (>= k 13) (< (nextsep v s) (s.len v)) (= (midx20 (elemkey el13)) p) (not (= (vcode20 p (elemval el13)) #xff)))
+       (mk-pres20 ErrInvalidMetricOrder pos vals 5)
+  (ite (not (= (midx20 (elemkey el)) p)) (mk-pres20 ErrInvalidMetricOrder pos vals 0)
+  (ite (= (vcode20 p (elemval el)) #xff) (mk-pres20 ErrInvalidMetricValue pos vals 0)
+  (fold20 v (+ e 1) (+ k 1) (+ p 1) (store vals p (vcode20 p (elemval el))))))))))))))
+(define-fun parseRes20 ((vector Str)) PRes20
+  (let ((r (fold20 vector 0 0 0 noVals)))
+  (ite (not (= (p.err r) Nil)) r
+  (ite (not (or (= (p.pos r) (goff20 1)) (= (p.pos r) (goff20 2)) (= (p.pos r) NM20))) (mk-pres20 ErrTooShortVector (p.pos r) (p.vals r) 0)
+  r))))
